@@ -8,7 +8,8 @@ PROPERTY = "C14"
 LEVEL = "exploration"
 RULE = ("ThompsonSampling alone and under Radius, KNearest, LSHNearest, Clusters and TreeBandit with a binarizer drawn "
         "from: per-arm thresholds 'r >= t[arm]' / 'r <= t[arm]' (thresholds > 1, so not idempotent on {0,1}), parity, "
-        "flip (1 - r on {0,1}); small integer and half-integer rewards; histories of fit, partial_fit, add_arm(arm, "
+        "flip (1 - r on {0,1}); one bandit in four starts without a binarizer and receives its first one through add_arm; "
+        "n_jobs in {1,2,3,-1} (threading); small integer and half-integer rewards; histories of fit, partial_fit, add_arm(arm, "
         "new binarizer) followed by partial_fit, remove_arm, queries. Twin: ThompsonSampling() without binarizer, same "
         "seed and neighbourhood policy, fed int(binarizer(decision, reward)) computed with the binarizer current at the "
         "time of each observation, same calls. predict_expectations and predict must be identical. Non-trivial: the "
